@@ -143,6 +143,7 @@ func checkC07(c *Ctx, r *Report) {
 	checkDecoderAssignment(c, r, "decoders-overwrite", 28, nil)
 
 	checkIDStringHeader(c, r)
+	checkDCMIVersionGuards(c, r)
 
 	r.Rule("accepts-minimal-encoding", "the decoder has a success path for the specification's shortest valid encodings", 10)
 	for _, m := range minimalEncodings {
